@@ -134,6 +134,21 @@ Section Sem.
           do b <- get2 names cols "wohngeld_kinderzuschl_vorrang_bg"; do bl <- col_bools b;
           Ok (CInt (wthh_id hl al bl))
         else Err ENotImpl
+    | KJoin fk pk tgt dflt cmp =>
+        do cf <- get2 names cols fk; do fkl <- col_ints cf;
+        do cp <- get2 names cols pk; do pkl <- col_ints cp;
+        do ct <- get2 names cols tgt;
+        do jl <- join_list fkl pkl (col_vals ct) dflt;
+        match cmp with
+        | None => pack (col_dtype ct) jl
+        | Some (ng, other) =>
+            do co <- get2 names cols other;
+            do bs <- mapM_res (fun ab => match compare Eq (fst ab) (snd ab) with
+                                         | Ok (VBool b) => Ok (VBool (xorb ng b))
+                                         | Ok _ => Err EType
+                                         | Err e => Err e end) (combine jl (col_vals co));
+            pack TBool bs
+        end
     end.
 
   (* the nodes the targets need, minus columns supplied as data, evaluated in topological order *)
